@@ -40,6 +40,13 @@ func runC03(c *Ctx) {
 	}
 	c.Saw(add)
 	c.Saw(ctor)
+	// the certificates handed to AddCertsToAgent are all the CA returned: the parser of the CA's answer does not stop early
+	if gp := w.Func("sshutils/key", "GetPublicKeysFromBytes"); gp != nil {
+		c.Saw(gp)
+		scannerRule(c, "R1.keybound", gp, "the CA's answer is")
+	} else {
+		c.Unresolved("R1.keybound", "sshutils/key.GetPublicKeysFromBytes")
+	}
 	// fields by type
 	var fAdded, fOpt, fAgent string
 	st := ak.Underlying().(*types.Struct)
